@@ -213,12 +213,91 @@ func widthRule(c *core.Ctx, rel, typ, meth string) {
 			}
 		}
 	}
-	if mk == nil || len(put) != 2 {
-		c.Fail("C16-WIDTH", key+"#shape", pos, fmt.Sprintf("expected one allocation and two PutUint16 calls (tag, length), found make=%v puts=%d", mk != nil, len(put)))
+	// a 16-bit field may also be written octet by octet: b[k], b[k+1] = byte(v>>8), byte(v)
+	type put16 struct {
+		off int64
+		val ssa.Value
+	}
+	var puts []put16
+	if mk != nil {
+		for _, pc := range put {
+			off := int64(-1)
+			if pc.Call.Args[1] == ssa.Value(mk) {
+				off = 0
+			} else if sl, ok := pc.Call.Args[1].(*ssa.Slice); ok && sl.X == ssa.Value(mk) {
+				off = 0
+				if sl.Low != nil {
+					if k, isK := constInt(sl.Low); isK {
+						off = k
+					} else {
+						off = -1
+					}
+				}
+			}
+			puts = append(puts, put16{off, pc.Call.Args[2]})
+		}
+		type half struct {
+			val ssa.Value
+			hi  bool
+		}
+		halves := map[int64]half{}
+		if mk.Referrers() != nil {
+			for _, r := range *mk.Referrers() {
+				ia, ok := r.(*ssa.IndexAddr)
+				if !ok || ia.Referrers() == nil {
+					continue
+				}
+				k, isK := constInt(ia.Index)
+				if !isK {
+					continue
+				}
+				for _, rr := range *ia.Referrers() {
+					st, ok := rr.(*ssa.Store)
+					if !ok || st.Addr != ssa.Value(ia) {
+						continue
+					}
+					cv, ok := st.Val.(*ssa.Convert)
+					if !ok {
+						continue
+					}
+					if sh, isSh := cv.X.(*ssa.BinOp); isSh && sh.Op == token.SHR {
+						if n, isN := constInt(sh.Y); isN && n == 8 {
+							halves[k] = half{sh.X, true}
+						}
+					} else if bt, isB := cv.X.Type().Underlying().(*types.Basic); isB && bt.Kind() == types.Uint16 {
+						halves[k] = half{cv.X, false}
+					}
+				}
+			}
+		}
+		sameField := func(a, b ssa.Value) bool {
+			if a == b {
+				return true
+			}
+			la, ok1 := a.(*ssa.UnOp)
+			lb, ok2 := b.(*ssa.UnOp)
+			if !ok1 || !ok2 {
+				return false
+			}
+			fa, ok1 := la.X.(*ssa.FieldAddr)
+			fb, ok2 := lb.X.(*ssa.FieldAddr)
+			return ok1 && ok2 && fa.X == fb.X && fa.Field == fb.Field
+		}
+		for k, h := range halves {
+			if lo, ok := halves[k+1]; ok && h.hi && !lo.hi && sameField(h.val, lo.val) {
+				if bt, isB := h.val.Type().Underlying().(*types.Basic); isB && bt.Kind() == types.Uint16 {
+					puts = append(puts, put16{k, h.val})
+				}
+			}
+		}
+		sort.Slice(puts, func(i, j int) bool { return puts[i].off < puts[j].off })
+	}
+	if mk == nil || len(puts) != 2 {
+		c.Fail("C16-WIDTH", key+"#shape", pos, fmt.Sprintf("expected one allocation and two big-endian 16-bit writes (tag, length), found make=%v writes=%d", mk != nil, len(puts)))
 		return
 	}
-	// the second PutUint16 writes the length field at [2:4]
-	lenVal := p.LinOf(put[1].Call.Args[2])
+	// the second 16-bit write is the length field at [2:4]
+	lenVal := p.LinOf(puts[1].val)
 	size := p.LinOf(mk.Len)
 	want := lenVal.Add(prover.Const(4), 1)
 	d := size.Add(want, -1)
@@ -255,13 +334,12 @@ func widthRule(c *core.Ctx, rel, typ, meth string) {
 		}
 		got := map[int64]string{}
 		var lp []string
-		for _, pc := range put {
-			off, ok := offIn(pc.Call.Args[1])
-			if !ok {
+		for _, pc := range puts {
+			if pc.off < 0 {
 				lp = append(lp, "a 16-bit field is not written at a constant offset of the buffer")
 				continue
 			}
-			got[off] = fieldOf(pc.Call.Args[2])
+			got[pc.off] = fieldOf(pc.val)
 		}
 		if got[0] != "tag" || got[2] != "length" {
 			lp = append(lp, fmt.Sprintf("the 16-bit fields are written as %v, expected tag at +0 and length at +2", got))
